@@ -1700,6 +1700,21 @@ func (e *Enc) makeSlice(f *frame, x *ssa.MakeSlice) {
 	cp := e.idx64(e.val(x.Cap), x.Cap.Type())
 	// make panics for negative or huge sizes; memory exhaustion is not modelled
 	lim := bv64(1 << 48)
+	if f.con != nil && e.dry == 0 {
+		for _, c := range f.con.MakeAsserts {
+			env := e.cellEnv(f, x.Pos(), e.cur.clone())
+			env.names["makeLen"] = TV{V: Sc{ln}, Ty: types.Typ[types.Int]}
+			env.names["makeCap"] = TV{V: Sc{cp}, Ty: types.Typ[types.Int]}
+			n := f.nsafety["make"]
+			f.nsafety["make"]++
+			n0 := len(e.obls)
+			e.oblige("pre", fmt.Sprintf("%s/at.make#%d.%s", f.name, n, c.Label), e.evalBool(env, c), x.Pos())
+			if len(e.obls) > n0 {
+				e.obls[n0].Env = env
+				e.obls[n0].ClauseText = c.Text
+			}
+		}
+	}
 	e.safety(f, "makeslice", and(ule(ln, cp), ule(cp, lim)), x.Pos())
 	elem := x.Type().Underlying().(*types.Slice).Elem()
 	arr := e.newArr()
